@@ -27,8 +27,20 @@ RULE = ("irreducible row-stochastic matrices with 3..7 states (thorough: ..9) fr
         "irreducible PERIODIC chains (cyclic classes, period 2, 3 or n, dyadic and not) mostly through the all-pairs path "
         "with populations=None, and sequence cases (several calls in one process with the same number of states: "
         "mfpts(T, A) then mfpts(T', B) with A not a subset of B, committors/mfpts interleaved, and the all-pairs table "
-        "built column by column in a random order) whose every call is checked like a stand-alone case; every case is run on the real committors/mfpts with dense, csr, csc, coo and "
-        "lil input; the definitions REGENERATED from the current source (Gen/TptGen.v, vm_compute over Q) must agree to 1e-9 relative "
+        "built column by column in a random order) whose every call is checked like a stand-alone case; round 3s: every "
+        "periodic shape as a fixed list (bipartite a+b blocks, k-cyclic blocks, n-cycles = permutation matrices with and "
+        "without shuffled labels, even rings), each through the all-pairs table with populations=None and one other entry "
+        "point; history probes (one caller keeps ONE matrix object, index-set objects and populations object per container: "
+        "call, overwrite the returned array in place (scale / 1-q / fill), call again unchanged, overwrite the matrix "
+        "buffer in place with another model on the same graph (dense X[...]=T', LIL row assignment, CSR/CSC/COO .data), "
+        "call, put the first model back, call, give the index-set objects other members in place, call; plus a caller that "
+        "releases the matrix and allocates the next one at the same address) whose every call is checked like a "
+        "stand-alone case on what the objects held; every case is run on the real committors/mfpts with dense, csr, csc, coo and "
+        "lil input and (round 3s) on the dense memory layouts Fortran order, transposed view, every-second-element view of a "
+        "larger array (cells in between checked untouched), negative strides, read-only, np.matrix and -- for dyadic chains, "
+        "where it is exact, outside the single-precision eigen-solver path -- float32, with the index sets as list / tuple / "
+        "int64 / read-only int32 array / column vector; argument preservation covers matrix values, container type, dtype, "
+        "strides, flags, nnz, index sets and populations; the definitions REGENERATED from the current source (Gen/TptGen.v, vm_compute over Q) must agree to 1e-9 relative "
         "and, for chains with at most 4 states, coincide exactly with the hand-written model (for all inputs that is a theorem), the oracle evaluates the "
         "first-step equations, bounds, column agreement, lag linearity, container agreement and input preservation on "
         "the implementation's output. non-trivial := at least 3 states and at least one state that is neither source "
@@ -50,7 +62,15 @@ EXHAUSTIVE = {"thorough": False}
 ESSENTIAL_TAGS = ["comm", "comm-multi-sink", "comm-multi-source", "mfpt-sinks", "mfpt-multi-sink", "mfpt-all",
                   "mfpt-all-pops-given", "reversible", "nonreversible", "dyadic", "nondyadic", "index-error",
                   "lag-not-1", "interior-committor", "periodic", "periodic-all-pairs-pops-none", "sink-to-sink",
-                  "seq-sinks-not-nested", "seq-column-by-column", "seq-committors-and-mfpts", "seq-all-calls-returned"]
+                  "seq-sinks-not-nested", "seq-column-by-column", "seq-committors-and-mfpts", "seq-all-calls-returned",
+                  # round 3s
+                  "periodic-bipartite-all-pairs", "periodic-k-cyclic-all-pairs", "periodic-permutation-all-pairs",
+                  "periodic-ring-all-pairs", "layouts-committors", "layouts-mfpt-sinks", "layouts-mfpt-all",
+                  "float32-committors", "float32-mfpt-sinks", "float32-mfpt-all",
+                  "hist-committors", "hist-mfpt-sinks", "hist-mfpt-all", "hist-same-call-again",
+                  "hist-matrix-overwritten-in-place", "hist-sets-overwritten-in-place",
+                  "hist-populations-overwritten-in-place", "hist-all-calls-returned",
+                  "hist-result-scale", "hist-result-reverse", "hist-result-fill"]
 CONTAINERS = ["dense", "csr", "csc", "coo", "lil"]
 TOL = F(1, 10 ** 9)
 
@@ -153,6 +173,137 @@ def _periodic_counts(rng, n, dyadic):
         if _strongly_connected(C) and _period(C) > 1:
             return C
     return [[1 if j == (i + 1) % n else 0 for j in range(n)] for i in range(n)]
+
+
+def _cyclic_blocks(rng, sizes, dyadic, full=False):
+    """irreducible chain whose states fall into len(sizes) cyclic classes of the given sizes (every transition goes
+    from a class to the next one): period = len(sizes) exactly.  States are assigned to the classes at random."""
+    n, d = sum(sizes), len(sizes)
+    for _ in range(200):
+        perm = list(range(n))
+        rng.shuffle(perm)
+        cls, k = {}, 0
+        for ci, sz in enumerate(sizes):
+            for _ in range(sz):
+                cls[perm[k]] = ci
+                k += 1
+        C = [[0] * n for _ in range(n)]
+        for i in range(n):
+            nxt = [j for j in range(n) if cls[j] == (cls[i] + 1) % d]
+            tg = nxt if full else rng.sample(nxt, rng.randint(1, len(nxt)))
+            if dyadic:
+                w = {j: 1 for j in tg}
+                for _ in range(8 - len(tg)):
+                    w[rng.choice(tg)] += 1
+            else:
+                w = {j: rng.randint(1, 6) for j in tg}
+            for j, x in w.items():
+                C[i][j] = x
+        if _strongly_connected(C) and _period(C) == d:
+            return C
+    return None
+
+
+def _ring(rng, n, dyadic):
+    """nearest-neighbour walk on a ring with an even number of states (no self transitions): reversible-pattern, period 2"""
+    C = [[0] * n for _ in range(n)]
+    for i in range(n):
+        a = rng.randint(1, 7) if dyadic else rng.randint(1, 6)
+        b = 8 - a if dyadic else rng.randint(1, 6)
+        C[i][(i + 1) % n] = a
+        C[i][(i - 1) % n] = b
+    return C
+
+
+def _periodic_shapes(rng, big):
+    """the periodic chains as a systematic stream: (shape label, counts)"""
+    out = []
+    bip = [(1, 2), (2, 1), (2, 2), (1, 3), (2, 3), (3, 3), (4, 2)] + ([(1, 5), (3, 4), (5, 4), (4, 4)] if big else [])
+    cyc = [(1, 1, 2), (1, 2, 2), (2, 2, 2), (1, 2, 3), (1, 1, 1, 2), (2, 1, 2, 1)] + ([(3, 3, 3), (1, 1, 1, 1, 3), (2, 2, 2, 2)] if big else [])
+    for sizes in bip:
+        for dy in (True, False):
+            out.append(("bipartite", _cyclic_blocks(rng, sizes, dy)))
+        out.append(("bipartite", _cyclic_blocks(rng, sizes, True, full=True)))
+    for sizes in cyc:
+        for dy in (True, False):
+            out.append(("k-cyclic", _cyclic_blocks(rng, sizes, dy)))
+    for n in [3, 4, 5, 6, 7] + ([8, 9] if big else []):
+        out.append(("permutation", _cyclic_blocks(rng, (1,) * n, True)))        # a single n-cycle, labels shuffled
+        out.append(("permutation", [[1 if j == (i + 1) % n else 0 for j in range(n)] for i in range(n)]))
+    for n in [4, 6] + ([8] if big else []):
+        for dy in (True, False):
+            out.append(("ring", _ring(rng, n, dy)))
+    return [(lab, C) for lab, C in out if C is not None]
+
+
+def _same_pattern(rng, C, rev, dyadic):
+    """another model on the same graph: new counts wherever C has one (so that a CSR/CSC/COO data array can be
+    overwritten in place); symmetric when C is to stay reversible; dyadic row sums through the diagonal when C's are
+    (then C's diagonal is fully populated, see _top_up)"""
+    n = len(C)
+    for _ in range(50):
+        D = [[(rng.randint(1, 6) if C[i][j] else 0) for j in range(n)] for i in range(n)]
+        if rev:
+            for i in range(n):
+                for j in range(i):
+                    D[i][j] = D[j][i]
+        if dyadic:
+            for i in range(n):
+                D[i][i] = 0
+            _top_up(D)
+        if D != C and all((D[i][j] > 0) == (C[i][j] > 0) for i in range(n) for j in range(n)):
+            return D
+    return None
+
+
+def _hist_cases(rng, count, sizes, lags):
+    """history probes: the caller keeps ONE matrix object / index-set objects / populations object and
+       call 0: computes; then overwrites the returned array in place (as after every call)
+       call 1: asks again, nothing changed                        -> must be a fresh, correct answer
+       call 2: has put another model into the same matrix object  -> must be the answer for that model
+       call 3: has put the first model back                       -> the first answer again
+       call 4: has put other members into the same index-set objects (committors / sink form)"""
+    out = []
+    k = 0
+    while len(out) < count and k < 20 * count:
+        k += 1
+        n = rng.choice(sizes)
+        rev, dy = rng.random() < 0.5, rng.random() < 0.5
+        C1 = _counts(rng, n, rev, dy)
+        if dy and not all(C1[i][i] > 0 for i in range(n)):
+            continue
+        C2 = _same_pattern(rng, C1, rev, dy)
+        if C2 is None:
+            continue
+        which = ["comm", "mfpt_s", "mfpt_a"][len(out) % 3]
+        if which == "comm":
+            src, snk = _sets(rng, n)
+            src2, snk2 = src, snk
+            for _ in range(50):
+                perm = list(range(n))
+                rng.shuffle(perm)
+                src2, snk2 = perm[:len(src)], perm[len(src):len(src) + len(snk)]
+                if (sorted(src2), sorted(snk2)) != (sorted(src), sorted(snk)):
+                    break
+            mk = lambda C, a=src, b=snk: {"kind": "comm", "n": n, "counts": C, "src": list(a), "snk": list(b)}
+            phases = [mk(C1), mk(C1), mk(C2), mk(C1), mk(C1, src2, snk2)]
+        elif which == "mfpt_s":
+            _, snk = _sets(rng, n)
+            snk2 = snk
+            for _ in range(50):
+                snk2 = rng.sample(range(n), len(snk))
+                if sorted(snk2) != sorted(snk):
+                    break
+            lag = rng.choice(lags)
+            mk = lambda C, b=snk: {"kind": "mfpt_s", "n": n, "counts": C, "snk": list(b), "lag": lag}
+            phases = [mk(C1), mk(C1), mk(C2), mk(C1), mk(C1, snk2)]
+        else:
+            lag = rng.choice(lags)
+            pops = "given" if (len(out) // 3) % 2 == 0 else "none"
+            mk = lambda C: {"kind": "mfpt_a", "n": n, "counts": C, "lag": lag, "pops": pops}
+            phases = [mk(C1), mk(C1), mk(C2), mk(C1)]
+        out.append({"kind": "hist", "n": n, "phases": phases, "mut": ["scale", "reverse", "fill"][(len(out) // 3) % 3]})
+    return out
 
 
 def _multi_sets(rng, n):
@@ -305,6 +456,22 @@ def generate(rng, tier):
                          {"kind": "comm", "n": n, "counts": C2, "src": sB, "snk": B},
                          {"kind": "mfpt_s", "n": n, "counts": C2, "snk": B, "lag": "1"}]
         cases.append({"kind": "seq", "n": n, "calls": calls})
+    # round 3s: periodic chains of every shape, each through the all-pairs table with populations=None and through one
+    # of the other entry points (what is demanded of them is what is demanded of every irreducible chain)
+    for k, (lab, C) in enumerate(_periodic_shapes(rng, big)):
+        n = len(C)
+        lag = lags[k % 3]
+        cases.append({"kind": "mfpt_a", "n": n, "counts": C, "lag": lag, "pops": "none", "shape": lab})
+        if k % 3 == 0:
+            cases.append({"kind": "mfpt_a", "n": n, "counts": C, "lag": lag, "pops": "given", "shape": lab})
+        elif k % 3 == 1:
+            _, snk = _sets(rng, n)
+            cases.append({"kind": "mfpt_s", "n": n, "counts": C, "snk": snk, "lag": lag, "shape": lab})
+        else:
+            src, snk = _sets(rng, n)
+            cases.append({"kind": "comm", "n": n, "counts": C, "src": src, "snk": snk, "shape": lab})
+    # round 3s: history probes (result overwritten by the caller, matrix / index sets / populations overwritten in place)
+    cases += _hist_cases(rng, 18 * (4 if big else 1), [3, 4, 4, 5] + ([6] if big else []), lags)
     if big:
         # small scope, exhaustive in the sets: every disjoint non-empty pair with <= 3 members each
         for n in (3, 4, 5):
@@ -329,67 +496,281 @@ def _tprob(c):
     return C / C.sum(axis=1)[:, None]
 
 
-def _containers(T):
-    import scipy.sparse as sp
-    return {"dense": T.copy(), "csr": sp.csr_matrix(T), "csc": sp.csc_matrix(T), "coo": sp.coo_matrix(T),
-            "lil": sp.lil_matrix(T)}
+# Every case is run on each of these: the five scipy/NumPy containers of round 1/2 and (round 3s) the memory layouts a
+# dense caller can hand in.  All of them hold the very same double values (float32 only for dyadic chains, where the
+# conversion is exact), so one model value serves for all of them.
+SPARSE = ["csr", "csc", "coo", "lil"]
+LAYOUTS = ["dense-f", "dense-tview", "dense-strided", "dense-neg", "dense-ro", "dense-f32", "matrix"]
+REALLOC = "dense-realloc"   # history probes only: the caller drops the matrix and allocates the next one (same address, usually)
+ALL_CONTAINERS = CONTAINERS + LAYOUTS + [REALLOC]
+GAP = 0.375     # what the cells between the elements of the strided view hold
 
 
-def _same(X, T, kind):
+def _names(c):
+    """containers a case is run on"""
+    if c["kind"] == "hist":
+        out = None
+        for ph in c["phases"]:
+            nm = _names(ph)
+            out = nm if out is None else [x for x in out if x in nm]
+        return out
+    out = CONTAINERS + LAYOUTS
+    # float32 input: only where the conversion is exact (dyadic chain) and the code computes in double anyway (with
+    # populations=None the eigen-solver runs in single precision: ~1e-7, nothing the property speaks about)
+    if not _dyadic(c["counts"]) or (c["kind"] == "mfpt_a" and c["pops"] == "none"):
+        out.remove("dense-f32")
+    return out
+
+
+def _mk(name, T):
+    """the container `name` holding the matrix T -> (X, same); same(T') says whether X (still) is that container, with
+    that layout / dtype / writeability, holding exactly T' (and nothing around a view was touched)"""
     import scipy.sparse as sp
-    if kind == "dense":
-        return isinstance(X, np.ndarray) and X.shape == T.shape and bool((X == T).all())
-    return sp.issparse(X) and X.format == kind and X.shape == T.shape and bool((X.toarray() == T).all())
+    n = len(T)
+    if name in SPARSE:
+        X = getattr(sp, name + "_matrix")(T)
+        nnz = X.nnz
+
+        def same(T2):
+            return bool(sp.issparse(X) and X.format == name and X.shape == T2.shape and X.dtype == np.float64
+                        and X.nnz == nnz and (X.toarray() == T2).all())
+        return X, same
+    base = None
+    if name == "dense":
+        X = T.copy()
+    elif name == "dense-f":
+        X = np.asfortranarray(T)
+    elif name == "dense-tview":        # transposed view of a C-ordered array (does not own its data)
+        base = np.ascontiguousarray(T.T)
+        X = base.T
+    elif name == "dense-strided":      # every second row / column of a larger array
+        base = np.full((2 * n, 2 * n), GAP)
+        X = base[::2, ::2]
+        X[...] = T
+    elif name == "dense-neg":          # negative strides
+        base = np.ascontiguousarray(T[::-1, ::-1])
+        X = base[::-1, ::-1]
+    elif name == "dense-ro":
+        X = T.copy()
+        X.setflags(write=False)
+    elif name == "dense-f32":
+        X = T.astype(np.float32)
+    elif name == "matrix":
+        X = np.matrix(T)
+    else:
+        raise ValueError(name)
+    sig = (type(X), X.dtype, X.shape, X.strides, X.flags.writeable, X.flags.c_contiguous, X.flags.f_contiguous)
+
+    def same(T2):
+        if (type(X), X.dtype, X.shape, X.strides, X.flags.writeable, X.flags.c_contiguous, X.flags.f_contiguous) != sig:
+            return False
+        if not bool((np.asarray(X) == T2).all()):
+            return False
+        if name == "dense-strided":
+            return bool((base[1::2, :] == GAP).all() and (base[:, 1::2] == GAP).all())
+        return True
+    return X, same
+
+
+def _overwrite(name, X, T2):
+    """the caller puts another model into the SAME object (same buffer, same sparsity pattern)"""
+    import scipy.sparse as sp
+    if name in ("csr", "csc", "coo"):
+        Y = getattr(sp, name + "_matrix")(T2)
+        if Y.data.shape != X.data.shape:
+            raise RuntimeError("history probe: sparsity patterns differ")
+        X.data[:] = Y.data
+    elif name == "lil":
+        for i in range(len(T2)):
+            X[i, :] = T2[i]
+    else:
+        ro = not X.flags.writeable
+        if ro:
+            X.setflags(write=True)
+        X[...] = T2
+        if ro:
+            X.setflags(write=False)
+
+
+def _setform(name, xs):
+    """the index sets are handed over in the forms a caller may use (one form per container)"""
+    if name in ("csr", "dense-tview"):
+        return np.array(xs, dtype=np.int64)
+    if name in ("csc", "dense-neg"):
+        return tuple(xs)
+    if name in ("coo", "dense-ro"):
+        a = np.array(xs, dtype=np.int32 if name == "coo" else np.int64)
+        a.setflags(write=False)
+        return a
+    if name == "dense-f":
+        return np.array(xs, dtype=np.int64).reshape((-1, 1))
+    return list(xs)
+
+
+def _set_in_place(obj, xs):
+    """same object, new members (same number of them); immutable forms are replaced"""
+    if isinstance(obj, list):
+        obj[:] = xs
+        return obj
+    if isinstance(obj, np.ndarray):
+        ro = not obj.flags.writeable
+        obj.setflags(write=True)
+        obj[...] = np.array(xs, dtype=obj.dtype).reshape(obj.shape)
+        if ro:
+            obj.setflags(write=False)
+        return obj
+    return tuple(xs)
+
+
+def _set_same(obj, xs):
+    if isinstance(obj, np.ndarray):
+        return obj.ravel().tolist() == list(xs)
+    return type(obj) in (list, tuple) and list(obj) == list(xs)
 
 
 def _call(fn):
+    """-> (canonical result, the object the implementation returned)"""
     try:
-        v = np.asarray(fn(), dtype=float)
+        raw = fn()
+        v = np.asarray(raw, dtype=float)
     except Exception as ex:
-        return {"err": type(ex).__name__}
+        return {"err": type(ex).__name__}, None
     if not np.isfinite(v).all():
-        return {"err": "NonFinite"}
-    return {"val": v.tolist()}
+        return {"err": "NonFinite"}, raw
+    return {"val": v.tolist()}, raw
+
+
+def _pops_of(c, T):
+    from enspara.msm.transition_matrices import eq_probs
+    return np.asarray(eq_probs(T.copy()), dtype=float)
+
+
+class _Args:
+    """argument objects of one caller: created once, reused (and updated in place) over the calls of a history"""
+
+    def __init__(self, c, name, eq):
+        self.name = name
+        self.src = _setform(name, c["src"]) if "src" in c else None
+        self.snk = _setform(name, c["snk"]) if "snk" in c else None
+        self.pops = None
+        if c["kind"] == "mfpt_a" and c["pops"] == "given":
+            self.pops = eq.copy()
+            if name == "dense-ro":
+                self.pops.setflags(write=False)
+
+    def update(self, c, eq):
+        if self.src is not None:
+            self.src = _set_in_place(self.src, c["src"])
+        if self.snk is not None:
+            self.snk = _set_in_place(self.snk, c["snk"])
+        if self.pops is not None:
+            ro = not self.pops.flags.writeable
+            self.pops.setflags(write=True)
+            self.pops[...] = eq
+            if ro:
+                self.pops.setflags(write=False)
+
+    def same(self, c, eq):
+        ok = True
+        if self.src is not None:
+            ok = ok and _set_same(self.src, c["src"])
+        if self.snk is not None:
+            ok = ok and _set_same(self.snk, c["snk"])
+        if self.pops is not None:
+            ok = ok and self.pops.shape == eq.shape and bool((self.pops == eq).all())
+        return ok
+
+
+def _invoke(c, X, a):
+    from enspara.tpt import committors, mfpts
+    lag = float(F(c["lag"])) if "lag" in c else None
+    if c["kind"] == "comm":
+        return _call(lambda: committors(X, a.src, a.snk))
+    if c["kind"] == "mfpt_s":
+        return _call(lambda: mfpts(X, sinks=a.snk, lagtime=lag))
+    return _call(lambda: mfpts(X, populations=a.pops, lagtime=lag))
+
+
+def _references(c, T, eq):
+    """what the other clauses compare with: fresh objects, plain C-ordered arrays"""
+    from enspara.tpt import mfpts
+    res = {}
+    lag = float(F(c["lag"])) if "lag" in c else None
+    if c["kind"] == "mfpt_a":
+        # what the eigen-solver (not modelled) returns for this matrix; passed on explicitly in the "given" cases
+        res["pops"] = eq.tolist()
+        pops = eq if c["pops"] == "given" else None
+        # the same table through the single-sink routine, and in units of the lag time
+        res["cols"] = [_call(lambda: mfpts(T.copy(), sinks=[j], lagtime=lag))[0] for j in range(c["n"])]
+        res["lag1"] = _call(lambda: mfpts(T.copy(), populations=None if pops is None else pops.copy(), lagtime=1.))[0]
+    if c["kind"] == "mfpt_s":
+        res["lag1"] = _call(lambda: mfpts(T.copy(), sinks=list(c["snk"]), lagtime=1.))[0]
+    return res
+
+
+def _clobber(raw, how):
+    """the caller goes on computing in the array it was given (its own property now)"""
+    if not isinstance(raw, np.ndarray) or not raw.flags.writeable or raw.dtype.kind != "f":
+        return
+    if how == "scale":
+        raw *= 100.0
+        raw += 3.0
+    elif how == "reverse":
+        np.subtract(1.0, raw, out=raw)
+    else:
+        raw.fill(-7.0)
 
 
 def run_impl(c):
     if c["kind"] == "seq":
         # consecutive calls in this process: anything kept between calls (a cached work array) shows up in the later ones
         return {"calls": [run_impl(x) for x in c["calls"]]}
-    from enspara.tpt import committors, mfpts
-    from enspara.msm.transition_matrices import eq_probs
+    if c["kind"] == "hist":
+        return _run_hist(c)
     T = _tprob(c)
+    eq = _pops_of(c, T) if c["kind"] == "mfpt_a" else None
     res = {}
-    lag = float(F(c["lag"])) if "lag" in c else None
-    pops = None
-    if c["kind"] == "mfpt_a":
-        # what the eigen-solver (not modelled) returns for this matrix; passed on explicitly in the "given" cases
-        eq = np.asarray(eq_probs(T.copy()), dtype=float)
-        res["pops"] = eq.tolist()
-        if c["pops"] == "given":
-            pops = eq
-    for name, X in _containers(T).items():
-        if c["kind"] == "comm":
-            src, snk = list(c["src"]), list(c["snk"])
-            r = _call(lambda: committors(X, src, snk))
-            ok = src == c["src"] and snk == c["snk"]
-        elif c["kind"] == "mfpt_s":
-            snk = list(c["snk"])
-            r = _call(lambda: mfpts(X, sinks=snk, lagtime=lag))
-            ok = snk == c["snk"]
-        else:
-            p = None if pops is None else pops.copy()
-            r = _call(lambda: mfpts(X, populations=p, lagtime=lag))
-            ok = p is None or bool((p == pops).all())
-        r["unchanged"] = bool(ok and _same(X, T, name))
+    for name in _names(c):
+        X, same = _mk(name, T)
+        a = _Args(c, name, eq)
+        r, _ = _invoke(c, X, a)
+        r["unchanged"] = bool(same(T) and a.same(c, eq))
         res[name] = r
-    if c["kind"] == "mfpt_a":
-        # the same table through the single-sink routine, and in units of the lag time
-        res["cols"] = [_call(lambda: mfpts(T.copy(), sinks=[j], lagtime=lag)) for j in range(c["n"])]
-        res["lag1"] = _call(lambda: mfpts(T.copy(), populations=None if pops is None else pops.copy(), lagtime=1.))
-    if c["kind"] == "mfpt_s":
-        res["lag1"] = _call(lambda: mfpts(T.copy(), sinks=list(c["snk"]), lagtime=1.))
+    res.update(_references(c, T, eq))
     return res
+
+
+def _run_hist(c):
+    """one caller per container: the same matrix object, index-set objects and populations object over all calls;
+    between the calls the caller (a) writes into the array it got back, (b) puts the next phase's model / sets into
+    the same objects in place.  Every call is then judged like a stand-alone call on what the objects hold."""
+    phases = c["phases"]
+    Ts = [_tprob(ph) for ph in phases]
+    eqs = [_pops_of(ph, T) if ph["kind"] == "mfpt_a" else None for ph, T in zip(phases, Ts)]
+    res = [dict() for _ in phases]
+    for name in _names(c) + [REALLOC]:
+        X, same = _mk("dense" if name == REALLOC else name, Ts[0])
+        a = _Args(phases[0], name, eqs[0])
+        for k, ph in enumerate(phases):
+            if k > 0 and ph != phases[k - 1]:
+                if ph["counts"] != phases[k - 1]["counts"] and name == REALLOC:
+                    # no object is kept: the old matrix is released before the new one is allocated, which makes the
+                    # new one take the old one's place in memory (CPython: same id()) -- a different object all the same
+                    X = same = None
+                    X, same = _mk("dense", Ts[k])
+                elif ph["counts"] != phases[k - 1]["counts"]:
+                    _overwrite(name, X, Ts[k])
+                    if not same(Ts[k]):
+                        raise RuntimeError("history probe: in-place overwrite of %s did not produce the new matrix" % name)
+                a.update(ph, eqs[k])
+            r, raw = _invoke(ph, X, a)
+            r["unchanged"] = bool(same(Ts[k]) and a.same(ph, eqs[k]))
+            res[k][name] = r
+            _clobber(raw, c["mut"])
+            del raw
+    for k, ph in enumerate(phases):
+        res[k].update(_references(ph, Ts[k], eqs[k]))
+    return {"phases": res}
 
 
 # ----------------------------------------------------------------------------- oracle
@@ -421,6 +802,20 @@ def _flat(v):
     return [x for r in v for x in r] if v and isinstance(v[0], list) else list(v)
 
 
+def _phase_text(c, k):
+    ph = c["phases"]
+    if k == 0:
+        return "first call"
+    if ph[k] == ph[k - 1]:
+        return "same objects, same contents as the call before"
+    what = []
+    if ph[k]["counts"] != ph[k - 1]["counts"]:
+        what.append("the same matrix object was overwritten in place with another model")
+    if ph[k].get("src") != ph[k - 1].get("src") or ph[k].get("snk") != ph[k - 1].get("snk"):
+        what.append("the same index-set objects were given other members in place")
+    return "; ".join(what)
+
+
 def oracle(c, r):
     if c["kind"] == "seq":
         seen, out = set(), []
@@ -430,12 +825,22 @@ def oracle(c, r):
                     seen.add(key)
                     out.append((key, "call %d of the sequence: %s" % (k, msg)))
         return out
+    if c["kind"] == "hist":
+        seen, out = set(), []
+        for k, (x, rx) in enumerate(zip(c["phases"], r["phases"])):
+            for key, msg in oracle(x, rx):
+                if key not in seen:
+                    seen.add(key)
+                    out.append((key, "history probe, call %d (%s; after every call the caller overwrites the array it got "
+                                "back: %s): %s" % (k, _phase_text(c, k), c["mut"], msg)))
+        return out
     out = []
     n = c["n"]
+    CONTAINERS = [x for x in ALL_CONTAINERS if x in r]
     # inputs are not modified (every container, every outcome)
     for name in CONTAINERS:
         if not r[name]["unchanged"]:
-            out.append(("input-modified", "%s input (or the index lists / populations) changed during the call" % name))
+            out.append(("input-modified", "%s input (matrix, its layout/dtype/flags, the cells around a strided view, the index sets or the populations) changed during the call" % name))
     if _bad_index(c):
         for name in CONTAINERS:
             if r[name].get("err") != "IndexError":
@@ -443,9 +848,10 @@ def oracle(c, r):
         return out
     if not _in_scope(c):
         return out
-    for name in CONTAINERS:
-        if "val" not in r[name]:
-            out.append(("no-result-" + c["kind"], "%s input: %s" % (name, r[name])))
+    bad = [name for name in CONTAINERS if "val" not in r[name]]
+    if bad:
+        out.append(("no-result-" + c["kind"], "%s input: %s%s" % (bad[0], r[bad[0]], (
+            " (also: %s)" % ", ".join("%s %s" % (b, r[b].get("err")) for b in bad[1:])) if bad[1:] else "")))
     if out:
         return out
     # dense and sparse inputs give the same values
@@ -556,12 +962,20 @@ def _model(c, r=None, g=""):
 def coq_check(c, r):
     if c["kind"] == "seq":
         return "(%s)" % " && ".join(coq_check(x, rx) for x, rx in zip(c["calls"], r["calls"]))
+    if c["kind"] == "hist":
+        # every call compared with the model of what the objects held at that call (identical call/result pairs once)
+        done, parts = [], []
+        for x, rx in zip(c["phases"], r["phases"]):
+            if (x, rx) not in done:
+                done.append((x, rx))
+                parts.append(coq_check(x, rx))
+        return "(%s)" % " && ".join(parts)
     tol = cq(TOL)
     two_d = c["kind"] == "mfpt_a"
     close = "(CaseLib.qll_close %s)" % tol if two_d else "(CaseLib.ql_close %s)" % tol
     ty = "(list (list Q))" if two_d else "(list Q)"
     parts = []
-    for name in CONTAINERS:
+    for name in [z for z in ALL_CONTAINERS if z in r]:
         x = r[name]
         if "val" in x:
             if two_d:
@@ -585,8 +999,8 @@ def coq_check(c, r):
 
 
 def coq_show(c):
-    if c["kind"] == "seq":
-        return "(%s)" % ", ".join(_model(x, None, "_g") for x in c["calls"])
+    if c["kind"] in ("seq", "hist"):
+        return "(%s)" % ", ".join(_model(x, None, "_g") for x in c["calls" if c["kind"] == "seq" else "phases"])
     return _model(c, None, "_g")
 
 
@@ -594,10 +1008,14 @@ def coq_show(c):
 def nontrivial(c, r):
     if c["kind"] == "seq":
         return all(nontrivial(x, rx) for x, rx in zip(c["calls"], r["calls"]))
+    if c["kind"] == "hist":
+        return all(nontrivial(x, rx) for x, rx in zip(c["phases"], r["phases"]))
     if "val" not in r["dense"] or not _in_scope(c) or c["n"] < 3:
         return False
     if c["kind"] == "comm":
         q = r["dense"]["val"]
+        if len(q) != c["n"]:
+            return False
         return any(i not in c["src"] and i not in c["snk"] and 1e-6 < q[i] < 1 - 1e-6 for i in range(c["n"]))
     if c["kind"] == "mfpt_s":
         return c["n"] - len(set(c["snk"])) >= 2
@@ -620,6 +1038,23 @@ def tags(c, r):
             t.append("seq-committors-and-mfpts")
         if all("val" in rx["dense"] for rx in r["calls"]):
             t.append("seq-all-calls-returned")
+        return t
+    if c["kind"] == "hist":
+        ph = c["phases"]
+        t = ["hist", {"comm": "hist-committors", "mfpt_s": "hist-mfpt-sinks", "mfpt_a": "hist-mfpt-all"}[ph[0]["kind"]],
+             "hist-result-" + c["mut"]]
+        if ph[1] == ph[0]:
+            t.append("hist-same-call-again")
+        if any(a["counts"] != b["counts"] for a, b in zip(ph, ph[1:])):
+            t.append("hist-matrix-overwritten-in-place")
+        if any((a.get("src"), a.get("snk")) != (b.get("src"), b.get("snk")) for a, b in zip(ph, ph[1:])):
+            t.append("hist-sets-overwritten-in-place")
+        if ph[0]["kind"] == "mfpt_a" and ph[0]["pops"] == "given":
+            t.append("hist-populations-overwritten-in-place")
+        if all("val" in rx[nm] for rx in r["phases"] for nm in _names(c) + [REALLOC]):
+            t.append("hist-all-calls-returned")
+        if "dense-f32" in _names(c):
+            t.append("hist-float32")
         return t
     t = []
     C = c["counts"]
@@ -658,6 +1093,14 @@ def tags(c, r):
         t.append("mfpt-all-pops-given" if c["pops"] == "given" else "mfpt-all-pops-computed")
     if "lag" in c and c["lag"] != "1":
         t.append("lag-not-1")
+    if "periodic" in t and c.get("shape"):
+        t.append("periodic-" + c["shape"])
+        if c["kind"] == "mfpt_a" and c["pops"] == "none":
+            t.append("periodic-%s-all-pairs" % c["shape"])
+    if _in_scope(c) and all(nm in r and "val" in r[nm] for nm in LAYOUTS if nm != "dense-f32"):
+        t.append("layouts-" + {"comm": "committors", "mfpt_s": "mfpt-sinks", "mfpt_a": "mfpt-all"}[c["kind"]])
+        if "val" in r.get("dense-f32", {}):
+            t.append("float32-" + {"comm": "committors", "mfpt_s": "mfpt-sinks", "mfpt_a": "mfpt-all"}[c["kind"]])
     return t
 
 
